@@ -1,6 +1,53 @@
 package websocket
 
-import "math/bits"
+import (
+	"math/bits"
+	"runtime/debug"
+	"syscall"
+)
+
+// vNativeAsmFault (native replay only): the same call once more with the buffer inside a private mapping whose
+// neighbouring pages are inaccessible, so that an access outside [b, b+L) - also a mere read, which guard bytes cannot
+// see - faults. Possible where the requested alignment lets an edge of the buffer coincide with a page edge: the end
+// when (A+L)%64 == 0, the start when A == 0. Returns 1 if the routine faulted, 0 if not, -1 if no edge could be placed.
+func vNativeAsmFault(data []byte, A int, key uint32) (res int) {
+	L := len(data)
+	if L == 0 {
+		return -1
+	}
+	const page = 4096
+	inner := (L + page - 1) / page * page
+	m, err := syscall.Mmap(-1, 0, inner+2*page, syscall.PROT_READ|syscall.PROT_WRITE, syscall.MAP_ANON|syscall.MAP_PRIVATE)
+	if err != nil {
+		return -1
+	}
+	defer syscall.Munmap(m)
+	if syscall.Mprotect(m[:page], syscall.PROT_NONE) != nil || syscall.Mprotect(m[page+inner:], syscall.PROT_NONE) != nil {
+		return -1
+	}
+	res = -1
+	try := func(off int) {
+		copy(m[off:off+L], data)
+		old := debug.SetPanicOnFault(true)
+		defer debug.SetPanicOnFault(old)
+		defer func() {
+			if recover() != nil {
+				res = 1
+			}
+		}()
+		maskAsm(&m[off], L, key)
+		if res < 0 {
+			res = 0
+		}
+	}
+	if (A+L)%64 == 0 {
+		try(page + inner - L) // the end of the buffer is the end of the accessible region
+	}
+	if A == 0 && res != 1 {
+		try(page) // the start of the buffer is the start of the accessible region
+	}
+	return res
+}
 
 // C17.go: maskGo is the byte-wise XOR with the rotating key, returns the rotated key,
 // and writes nothing outside b (guard cells inside the capacity of the slice).
@@ -93,6 +140,24 @@ func verifC17_asm() {
 	vAssert(ok, "C17.asm.bytes")
 	vAssert(r == bits.RotateLeft32(key, -8*(L%4)), "C17.asm.key")
 	vAssert(vAnd(vEqBytes(buf[off-16:off], guard[:16]), vEqBytes(buf[off+L:off+L+16], guard[16:])), "C17.asm.guard")
-	vAssert(vGhostAsmOOB() == 0, "C17.asm.bounds")
+	edge := "none"
+	if L > 0 && (A+L)%64 == 0 {
+		edge = "end-on-a-64-byte-boundary"
+	} else if L > 0 && A == 0 {
+		edge = "start-on-a-64-byte-boundary"
+	}
+	oob := vGhostAsmOOB()
+	if !vEngine() {
+		// natively there is no interpreter to count accesses: run the routine against inaccessible neighbour pages
+		oob = 0
+		if vNativeAsmFault(data, A, key) == 1 {
+			oob = 1
+		}
+	}
+	if oob != 0 {
+		// (classes of a bounds violation: the native confirmation needs a buffer edge that can sit on a page edge)
+		vClassify("edge", edge)
+	}
+	vAssert(oob == 0, "C17.asm.bounds")
 	vObserve("asm", L, A, buf[off:off+L], r)
 }
